@@ -234,6 +234,37 @@ func rulePairDedup(w *World, r *Report, fn string) {
 				}
 			}
 		})
+		if !found {
+			// helper form: if register(m, pair) { append }
+			for _, blk := range f.Blocks {
+				t, _, ifi := ifSuccs(blk)
+				if ifi == nil {
+					continue
+				}
+				hc, ok := resolve(ifi.Cond).(*ssa.Call)
+				if !ok || calleeOf(hc) == nil || !w.InModule(calleeOf(hc)) || len(hc.Call.Args) != 2 {
+					continue
+				}
+				mm, ok := resolve(hc.Call.Args[0]).(*ssa.MakeMap)
+				if !ok || ob[mm.Block()] {
+					continue
+				}
+				kp, ok := arrayLiteral(hc.Call.Args[1])
+				if !ok || len(kp) != 2 || !equivValue(kp[0], pair[0]) || !equivValue(kp[1], pair[1]) {
+					if !(resolve(hc.Call.Args[1]) == resolve(elems[0])) {
+						continue
+					}
+				}
+				if !(t == c.Block() || blockDominatedByEdge(f, blk, t, c.Block())) {
+					continue
+				}
+				if missThenInsertHelper(calleeOf(hc)) {
+					found = true
+				} else {
+					why = "helper " + w.FuncName(calleeOf(hc)) + " does not have the shape: return false on hit; insert and return true on miss"
+				}
+			}
+		}
 		if found {
 			r.add("DISTINCT-PAIR", key, w.Pos(c.Pos()), Discharged, "append guarded by miss-then-insert on the function-level map")
 		} else {
@@ -280,6 +311,59 @@ func rulePairDedup(w *World, r *Report, fn string) {
 			r.add("PER-ITERATION", key, w.Pos(f.Pos()), Discharged, "scratch list is created inside the iteration")
 		}
 	}
+}
+
+// missThenInsertHelper: h(m, k) bool returns true only on the miss branch of
+// m[k] after inserting k, and false on the hit branch.
+func missThenInsertHelper(h *ssa.Function) bool {
+	if len(h.Params) != 2 || h.Blocks == nil {
+		return false
+	}
+	var lk *ssa.Lookup
+	instrs(h, func(in ssa.Instruction) {
+		if l, ok := in.(*ssa.Lookup); ok && l.CommaOk && resolve(l.X) == ssa.Value(h.Params[0]) && resolve(l.Index) == ssa.Value(h.Params[1]) {
+			lk = l
+		}
+	})
+	if lk == nil {
+		return false
+	}
+	okv := extractOf(lk, 1)
+	if okv == nil {
+		return false
+	}
+	for _, blk := range h.Blocks {
+		t, fl, ifi := ifSuccs(blk)
+		if ifi == nil || resolve(ifi.Cond) != ssa.Value(okv) {
+			continue
+		}
+		ins := false
+		instrs(h, func(in ssa.Instruction) {
+			if mu, ok := in.(*ssa.MapUpdate); ok && resolve(mu.Map) == ssa.Value(h.Params[0]) && resolve(mu.Key) == ssa.Value(h.Params[1]) && (mu.Block() == fl || blockDominatedByEdge(h, blk, fl, mu.Block())) {
+				ins = true
+			}
+		})
+		if !ins {
+			return false
+		}
+		good := true
+		for _, ret := range returnsOf(h) {
+			k, ok := resolve(ret.Results[0]).(*ssa.Const)
+			if !ok || k.Value == nil {
+				return false
+			}
+			onMiss := ret.Block() == fl || blockDominatedByEdge(h, blk, fl, ret.Block())
+			onHit := ret.Block() == t || blockDominatedByEdge(h, blk, t, ret.Block())
+			if k.Value.String() == "true" && !onMiss {
+				good = false
+			}
+			if k.Value.String() == "false" && !onHit {
+				good = false
+			}
+		}
+		return good
+	}
+	return false
 }
 
 // ---------------------------------------------------------------- NOFLOAT
